@@ -119,6 +119,15 @@ pub struct Mon {
     pub rebinds: u32,
     /// NEW_CONNECTION_ID frames that arrived (plaintext lane), per (receiving endpoint, pair id)
     pub nci_seen: BTreeMap<(usize, u64), NciSeen>,
+    /// Wire-level ownership of local CIDs (plaintext lane, worlds with short, repeating CIDs):
+    /// (endpoint, CID) -> pair id of the connection that announced it and has not been told to
+    /// retire it, and per (endpoint, pair) the CID of every sequence number
+    pub track_cid_owner: bool,
+    pub cid_owner: BTreeMap<(usize, Vec<u8>), u64>,
+    pub cid_by_seq: BTreeMap<(usize, u64), BTreeMap<u64, Vec<u8>>>,
+    /// sequence numbers the peer has retired (a retransmitted NEW_CONNECTION_ID frame for one of
+    /// them announces nothing)
+    pub cid_retired: BTreeMap<(usize, u64), BTreeSet<u64>>,
     /// DATAGRAM seqs (None for anonymous short ones) in arrival order per receiving connection
     pub dgram_arrivals: BTreeMap<(usize, usize), Vec<Option<u32>>>,
     pub last_reset_ns: BTreeMap<usize, u64>,
@@ -180,6 +189,10 @@ impl Mon {
             honest: true,
             rebinds: 0,
             nci_seen: BTreeMap::new(),
+            track_cid_owner: false,
+            cid_owner: BTreeMap::new(),
+            cid_by_seq: BTreeMap::new(),
+            cid_retired: BTreeMap::new(),
             dgram_arrivals: BTreeMap::new(),
             last_reset_ns: BTreeMap::new(),
             pair_creations: BTreeMap::new(),
@@ -269,7 +282,18 @@ impl Mon {
                 let to_forgotten = ep.conns.get(&rch).map_or(true, |c| c.forgotten);
                 // an endpoint with zero-length CIDs routes by address tuple: the connection that
                 // owns the tuple legitimately receives whatever arrives from it
-                if a != b && !to_forgotten && ep.spec.cid_len != 0 {
+                // where CIDs are short and repeat, a CID that its connection was told to retire (or
+                // whose connection drained) may by now have been announced by another connection:
+                // the datagram is misrouted only if, by what was seen on the wire, the producer's
+                // peer still owns the CID it carries
+                let owned = if self.track_cid_owner {
+                    let l = ep.spec.cid_len;
+                    let dcid = if d.data[0] & 0x80 != 0 { d.data.get(5).map(|n| *n as usize).and_then(|n| d.data.get(6..6 + n)) } else { d.data.get(1..1 + l) };
+                    dcid.map_or(false, |c| self.cid_owner.get(&(ei, c.to_vec())) == Some(&a))
+                } else {
+                    true
+                };
+                if a != b && !to_forgotten && ep.spec.cid_len != 0 && owned {
                     self.violate(
                         "C09",
                         format!("endpoint {ei} handed a datagram of connection pair {a:x} (from {oe}/{och}) to handle {rch} which belongs to pair {b:x}"),
@@ -329,6 +353,15 @@ impl Mon {
                                 n.max_rpt = n.max_rpt.max(*retire_prior_to);
                                 if !n.srcs.contains(&d.src) {
                                     n.srcs.push(d.src);
+                                }
+                            }
+                            Frame::RetireConnectionId { seq } if self.track_cid_owner => {
+                                self.cid_retired.entry((ei, conn.pair)).or_default().insert(*seq);
+                                if let Some(cid) = self.cid_by_seq.get_mut(&(ei, conn.pair)).and_then(|m| m.remove(seq)) {
+                                    if self.cid_owner.get(&(ei, cid.clone())) == Some(&conn.pair) {
+                                        self.cid_owner.remove(&(ei, cid));
+                                        self.cnt.inc("c09.cids_retired");
+                                    }
                                 }
                             }
                             Frame::MaxData(v) => cm.led_max_data = cm.led_max_data.max(*v),
@@ -494,6 +527,13 @@ impl Mon {
         }
         if !conn.c.is_drained() {
             self.violate("C08", format!("connection {ei}/{ch}: Drained endpoint event while is_drained() is false"));
+        }
+        if let Some(m) = self.cid_by_seq.remove(&(ei, conn.pair)) {
+            for (_, cid) in m {
+                if self.cid_owner.get(&(ei, cid.clone())) == Some(&conn.pair) {
+                    self.cid_owner.remove(&(ei, cid));
+                }
+            }
         }
         let mut msg = None;
         if let Some(cm) = self.conns.get_mut(&(ei, ch)) {
@@ -715,6 +755,41 @@ impl Mon {
                         });
                     }
                 }
+            }
+        }
+        if self.lane == Lane::Null && self.track_cid_owner && !conn.c.is_drained() {
+            let pair = conn.pair;
+            let mut announce = vec![];
+            for p in decoded.iter().flatten().flatten() {
+                if p.pkt.ty != PType::Short && !p.pkt.scid.is_empty() {
+                    announce.push((0u64, p.pkt.scid.clone()));
+                }
+                for f in &p.frames {
+                    if let Frame::NewConnectionId { seq, cid, .. } = f {
+                        announce.push((*seq, cid.clone()));
+                    }
+                }
+            }
+            for (seq, cid) in announce {
+                let known = self.cid_by_seq.entry((ei, pair)).or_default();
+                if known.get(&seq) == Some(&cid) {
+                    continue; // a retransmission
+                }
+                if seq == 0 && known.contains_key(&0) {
+                    continue;
+                }
+                if self.cid_retired.get(&(ei, pair)).map_or(false, |r| r.contains(&seq)) {
+                    continue;
+                }
+                match self.cid_owner.get(&(ei, cid.clone())) {
+                    Some(&other) if other != pair => {
+                        self.violate("C09", format!("endpoint {ei}: connection pair {pair:x} announced CID {} (sequence {seq}) while pair {other:x} had announced it and has not been told to retire it", crate::util::hex(&cid)));
+                    }
+                    _ => {}
+                }
+                self.cnt.inc("c09.cids_announced");
+                self.cid_owner.insert((ei, cid.clone()), pair);
+                self.cid_by_seq.entry((ei, pair)).or_default().insert(seq, cid);
             }
         }
         // RETIRE_CONNECTION_ID frames this connection sent: the CIDs (and reset tokens) it has
